@@ -21,12 +21,16 @@ Proof. solve_decision. Defined.
 Record oprec := mkOp { op_kind : opkind; op_task : positive; op_prev : status }.
 Record savedop := mkSaved { so_kind : opkind; so_task : task; so_prev : status }.
 
+(* one call of an event handler: allocate or deallocate, the task, and the status / node name
+   the task object carried at that moment *)
+Record hev := mkHev { he_alloc : bool; he_task : positive; he_status : status; he_node : option positive }.
+
 Record sess := mkSess {
   heap : gmap positive task;
   jobs : gmap positive job;
   nodes : gmap positive node;
   hshare : gmap positive res;            (* handler ledger keyed by task.Job *)
-  hlog : list (bool * positive);         (* handler calls, newest first: (is_allocate, task) *)
+  hlog : list hev;                       (* handler calls, newest first *)
   herr : gset positive;                  (* allocate callback sets Event.Err for these tasks *)
   refuse_bind : gset positive;           (* cache.AddBindTask refuses these tasks *)
   refuse_evict : gset positive;          (* cache.Evict refuses these tasks *)
@@ -46,7 +50,7 @@ Definition upd_jobs (s : sess) (j : gmap positive job) : sess :=
 Definition upd_nodes (s : sess) (n : gmap positive node) : sess :=
   mkSess (heap s) (jobs s) n (hshare s) (hlog s) (herr s) (refuse_bind s) (refuse_evict s)
          (binds s) (evicts s) (stmts s) (saved s) (job_ready s).
-Definition upd_handlers (s : sess) (sh : gmap positive res) (l : list (bool * positive)) : sess :=
+Definition upd_handlers (s : sess) (sh : gmap positive res) (l : list hev) : sess :=
   mkSess (heap s) (jobs s) (nodes s) sh l (herr s) (refuse_bind s) (refuse_evict s)
          (binds s) (evicts s) (stmts s) (saved s) (job_ready s).
 Definition upd_logs (s : sess) (b : list (positive * option positive)) (e : list positive) : sess :=
@@ -80,10 +84,10 @@ Definition ssn_update_status (s : sess) (p : task) (st : status) : bool * sess *
 Definition h_alloc (s : sess) (p : task) : bool * sess :=
   let cur := default empty_res (hshare s !! t_job p) in
   (bool_decide (t_id p ∈ herr s),
-   upd_handlers s (<[t_job p := add cur (t_req p)]> (hshare s)) ((true, t_id p) :: hlog s)).
+   upd_handlers s (<[t_job p := add cur (t_req p)]> (hshare s)) (mkHev true (t_id p) (t_status p) (t_node p) :: hlog s)).
 Definition h_dealloc (s : sess) (p : task) : sess :=
   let cur := default empty_res (hshare s !! t_job p) in
-  upd_handlers s (<[t_job p := sub cur (t_req p)]> (hshare s)) ((false, t_id p) :: hlog s).
+  upd_handlers s (<[t_job p := sub cur (t_req p)]> (hshare s)) (mkHev false (t_id p) (t_status p) (t_node p) :: hlog s).
 
 (* node.RemoveTask on the session node named by the task's NodeName, if found *)
 Definition ssn_node_remove (s : sess) (p : task) : sess :=
@@ -298,7 +302,9 @@ Fixpoint dispatch_all (s : sess) (l : list positive) : sess * bool :=
   | t :: r => let '(s1, ok) := dispatch s t in if ok then dispatch_all s1 r else (s1, false)
   end.
 
-Definition ssn_place (s : sess) (k : opkind) (tid nid : positive) : sess * result :=
+(* [jr]: ssn.JobReady as a function of the session and the job (scripted in C07, the gang
+   plugin's answer in the action models) *)
+Definition ssn_place_with (jr : sess -> job -> bool) (s : sess) (k : opkind) (tid nid : positive) : sess * result :=
   match heap s !! tid with
   | None => (s, RNoTask)
   | Some p =>
@@ -321,21 +327,23 @@ Definition ssn_place (s : sess) (k : opkind) (tid nid : positive) : sess * resul
         let '(_, s4) := h_alloc s3 p3 in
         match k with
         | KAllocate =>
-          if job_ready s4 then
-            match jobs s4 !! t_job p with
-            | Some j =>
+          match jobs s4 !! t_job p with
+          | Some j =>
+            if jr s4 j then
               (* for _, task := range job.TaskStatusIndex[Allocated]: ascending id here;
                  the harness only exercises order-insensitive situations *)
               let '(s5, ok) := dispatch_all s4 (elements (default ∅ (j_index j !! skey Allocated))) in
               (s5, if ok then ROk else RErr)
-            | None => (s4, ROk)
-            end
-          else (s4, ROk)
+            else (s4, ROk)
+          | None => (s4, ROk)
+          end
         | _ => (s4, ROk)
         end
       end
     end
   end.
+
+Definition ssn_place := ssn_place_with (fun s _ => job_ready s).
 
 Definition ssn_evict (s : sess) (tid : positive) : sess * result :=
   match heap s !! tid with
